@@ -474,10 +474,19 @@ class M:
 # subjects: how to make / unpack / pack the Python counterpart of one struct
 # ---------------------------------------------------------------------------------------------------------------
 class Subject:
-    def __init__(self, pyname, make, unpack, pack, calcsize=None, make_base=None, accept_tail=True):
+    """pack_into(o, buffer, offset, form): the caller-supplied-buffer call forms of pack() (None when the counterpart has
+    none, e.g. construct adapters): form 0 pack(buffer, offset, return_buffer=False), 1 pack(buffer=, offset=,
+    return_buffer=True), 2 pack(buffer=, offset=, return_buffer=False); returns what pack() returned.
+    unpack_at(buffer, offset, form): unpack() of a message that starts at `offset` of a larger buffer (positional /
+    keyword arguments)."""
+
+    def __init__(self, pyname, make, unpack, pack, calcsize=None, make_base=None, accept_tail=True, pack_into=None,
+                 unpack_at=None):
         self.pyname, self.make, self.unpack, self.pack, self.calcsize = pyname, make, unpack, pack, calcsize
         self.make_base = make_base or make
         self.accept_tail = accept_tail
+        self.pack_into = pack_into
+        self.unpack_at = unpack_at          # unpack_at(buffer, offset, form) -> (object, bytes consumed)
 
 
 def class_subject(cls, make_base=None, pack_kwargs=None):
@@ -491,7 +500,17 @@ def class_subject(cls, make_base=None, pack_kwargs=None):
 
     def calcsize(o):
         return o.calcsize()
-    return Subject(cls.__name__, cls, unpack, pack, calcsize, make_base)
+
+    def pack_into(o, buffer, offset, form):
+        if form == 0:
+            return o.pack(buffer, offset, return_buffer=False)
+        return o.pack(buffer=buffer, offset=offset, return_buffer=(form == 1))
+
+    def unpack_at(buffer, offset, form):
+        o = cls()
+        n = o.unpack(buffer, offset) if form == 0 else o.unpack(buffer=buffer, offset=offset)
+        return o, n
+    return Subject(cls.__name__, cls, unpack, pack, calcsize, make_base, pack_into=pack_into, unpack_at=unpack_at)
 
 
 def adapter_subject(name, adapter, make=None):
